@@ -238,7 +238,14 @@ func (w *World) symLoad(fr *frame, pos token.Pos, T types.Type, p *symptr) value
 		for i := 0; i < n; i++ {
 			vals[i] = load(T, resolvePath(p.cells[i], p.path))
 		}
-		return w.muxTree(T, p.idx, vals, 0, n)
+		res := w.muxTree(T, p.idx, vals, 0, n)
+		// a table lookup the path condition already pins to a constant (e.g. after vfConcretize of the same lookup)
+		if t, ok := res.(*Term); ok && w.run != nil && t.W > 0 {
+			if k, ok := w.run.pinned[t]; ok {
+				return uint64(k)
+			}
+		}
+		return res
 	}
 	// group candidates by identical contents, fork over the groups
 	type group struct {
